@@ -688,11 +688,13 @@ ENVOP_VALUES = ['tail', 'two words', '$dollar;semi', "q'uote", '', 'é*?', '-opt
 
 def run_envop_project(_job):
     from verif import mesonproc as mp
-    root = os.path.join(scratch_root(), 'c03eo.%d' % os.getpid())
+    # (the source directory's name holds a '=': a program from the source tree then has a '=' in its path, which env(1) would
+    #  take for an assignment if the path were simply written behind the assignments)
+    root = os.path.join(scratch_root(), 'c03e=o.%d' % os.getpid())
     shutil.rmtree(root, ignore_errors=True)
     dumpdir = os.path.join(root, 'dumps')
     os.makedirs(dumpdir)
-    L = ["project('envop')", "dump = find_program(%s)" % lit(DUMP)]
+    L = ["project('envop')", "dump = find_program('tool.sh')"]
     plan = []
     for vi, v in enumerate(ENVOP_VALUES):
         for method in ('set', 'append', 'prepend'):
@@ -713,7 +715,8 @@ def run_envop_project(_job):
                     s_ = ':' if sep is None else sep
                     exp = v if method == 'set' else ('outer' + s_ + v if method == 'append' else v + s_ + 'outer')
                     plan.append((pos, name, method, sep, v, exp, dp))
-    mp.write_tree(root, {'meson.build': '\n'.join(L) + '\n'})
+    mp.write_tree(root, {'meson.build': '\n'.join(L) + '\n', 'tool.sh': '#!/bin/sh\nexec %s "$@"\n' % DUMP})
+    os.chmod(os.path.join(root, 'tool.sh'), 0o755)
     env = mp.base_env(home=os.path.join(root, 'home'))
     env['OPX'] = 'outer'
     out = {'viol': [], 'cases': 0, 'by_kind': {}, 'wrapped': 0, 'rsp_edges': 0}
